@@ -445,6 +445,211 @@ HAND_DGRAMS = [
 
 
 # ---------------------------------------------------------------------------
+# use sites of the size functions (SynthDef.send/add/_do_send, send_clumped_bundles, sync)
+
+def enc_size(t):
+    """encoded size of a message/bundle tree (OSC 1.0 sizes; only used to aim at the limit)"""
+    if t and isinstance(t[0], dict) and 's' in t[0]:
+        n = (len(t[0]['s'].encode()) // 4 + 1) * 4 + ((len(t) - 1 + 1) // 4 + 1) * 4
+        for a in t[1:]:
+            if isinstance(a, dict) and 's' in a:
+                n += 0 if a['s'] in '[]' and a['s'] else (len(a['s'].encode()) // 4 + 1) * 4
+            elif isinstance(a, dict) and ('y' in a or 'z' in a):
+                k = a['z'] if 'z' in a else len(a['y']) // 2
+                n += 4 + (k + 3) // 4 * 4
+            elif isinstance(a, list) and a:
+                n += 4 + enc_size(a)
+            else:
+                n += 4
+        return n
+    return 16 + sum(4 + enc_size(e) for e in t[1:])
+
+
+COMPLETIONS = [
+    None,
+    [S('/s_new'), S('c06def'), I(1001), I(0), I(1)],
+    [S('/b_setn'), I(0), I(0), I(7), Y(bytes(range(1, 8)))],
+    [S('/n_set'), I(1001), S('ñé'), Fl(1.5)],
+    [S('/d_recv'), Y(bytes(51)), [S('/s_new'), S('x'), I(-1)]],
+    [None, [S('/g_new'), I(1)], [S('/s_new'), S('c06def'), I(-1), I(0), I(1)]],
+]
+
+
+def site_cases(ctx):
+    rng = ctx.rng
+    cases = []
+    k = 0
+    targets = [MAX_UDP - 4, MAX_UDP, MAX_UDP + 4] if ctx.quick else [MAX_UDP - 8, MAX_UDP - 4, MAX_UDP, MAX_UDP + 4, MAX_UDP + 8]
+    for comp in COMPLETIONS:
+        csize = 4 if comp is None else 4 + enc_size(comp)
+        for T in targets:
+            for adj in ([0, -1] if ctx.quick else [0, -1, -2, -3]):
+                L = T - 16 - csize + adj          # '/d_recv' 8 + ',b?' 4 + blob size 4
+                k += 1
+                cases.append({'kind': 'dsend', 'L': L, 'comp': comp, 'via': ['send', '_do_send', 'send'][k % 3],
+                              'comp_fn': k % 4 == 0 and comp is not None, 'fill': 7 if k % 5 == 0 else 0, 'cls': 'dsend_boundary'})
+    # the real (unpadded) definition alone fits; with a blob-carrying completion message it straddles the limit
+    for T in targets:
+        for via in ('add', 'send'):
+            n = T - 16 - 204 - 4 - 36      # refined below from the real definition size
+            cases.append({'kind': 'dsend', 'L': None, 'comp': [S('/b_setn'), I(0), I(0), I(n), {'z': n}], 'via': via, 'cls': 'dsend_real_def',
+                          'aim': T})
+    cases.append({'kind': 'dsend', 'L': 70000, 'comp': None, 'via': 'send', 'local': False, 'cls': 'dsend_remote'})
+    cases.append({'kind': 'dsend', 'L': 1000, 'comp': COMPLETIONS[1], 'via': 'send', 'local': False, 'cls': 'dsend_remote'})
+    for _ in range(ctx.n(4, 60)):
+        comp = rng.choice(COMPLETIONS[1:]) if rng.random() < 0.7 else g_msg(rng, 2, addrs=ADDRS)
+        cases.append({'kind': 'dsend', 'L': rng.choice([1, 2, 3, 4, 1000, 8191, 30000, MAX_UDP - 4 - 16 - 4 - enc_size(comp) + rng.randint(-6, 6)]),
+                      'comp': comp, 'via': rng.choice(['send', '_do_send']), 'comp_fn': rng.random() < 0.3, 'cls': 'dsend_random'})
+
+    def elems(per, total, jitter=True):
+        out, acc, j = [], 16, 0
+        while acc < total:
+            n = per + (rng.choice([0, 1, 2, 3, 5]) if jitter else 0)
+            m = [S('/m%03d' % (j % 1000)), Y(bytes(n)), I(j)]
+            if rng.random() < 0.15:
+                m.append(S('éé'))
+            out.append(m)
+            acc += 4 + enc_size(m)
+            j += 1
+        return out
+    for lim, kind in ((MAX_UDP, 'clumped'), (MAX_UDP - SYNC, 'sync')):
+        for per, total, via in [(1000, lim - 2000, 'direct'), (1000, lim + 1500, 'direct'), (3000, lim + 100, 'ctx'), (600, lim - 300, 'ctx'),
+                                (9000, lim + 5000, 'direct'), (20000, lim - 10000, 'ctx')] + \
+                               ([] if ctx.quick else [(rng.choice([300, 700, 1500, 4000, 8170, 8200]), lim + rng.randint(-3000, 3000), rng.choice(['direct', 'ctx']))
+                                                      for _ in range(20)]):
+            es = elems(per, total)
+            # land exactly around the limit: trim the last blob
+            cases.append({'kind': kind, 'time': rng.choice([None, Fl(0.2)]), 'els': es, 'via': via, 'cls': kind + '_' + via})
+        # exact boundary: predicted total = lim - 4, lim, lim + 4
+        for d in ((-4, 0, 4) if kind == 'clumped' else (-4, 0, 4, 24, 36)):
+            es = elems(5000, lim - 6000, jitter=False)
+            rest = lim + d - (16 + sum(4 + enc_size(e) for e in es))
+            n = rest - 4 - (8 + 4 + 4)          # element prefix, '/last' + ',b' + blob size
+            es.append([S('/last'), Y(bytes(n))])
+            cases.append({'kind': kind, 'time': Fl(0.2), 'els': es, 'via': 'direct', 'cls': kind + '_exact%+d' % d})
+    cases.append({'kind': 'sync', 'time': None, 'els': [], 'via': 'direct', 'cls': 'sync_empty'})
+    cases.append({'kind': 'clumped', 'time': None, 'els': [[None, [S('/a'), I(1)]], [S('/b')]], 'via': 'direct', 'cls': 'clumped_nested_none'})
+    return cases
+
+
+def check_sites(ctx, c):
+    """drive the real use sites, check the property on what was actually sent and compare the decisions with the model"""
+    cases = site_cases(ctx)
+    # refine the real-definition cases once the size of the real definition is known
+    probe = ctx.impl('c06_osc', {'cases': [{'kind': 'dsend', 'L': None, 'comp': None, 'via': '_do_send'}]})['out'][0]
+    real_len = len(bytes.fromhex(probe['def_bytes']['y'])) if 'y' in probe['def_bytes'] else probe['def_bytes']['z']
+    for k in cases:
+        if k.get('cls') == 'dsend_real_def':
+            pad = (real_len + 3) // 4 * 4
+            n = k['aim'] - (8 + 4 + 4 + pad) - 4 - (8 + 8 + 12 + 4)      # blob hdr, '/b_setn' + ',iiib' + 3 ints + size
+            n -= n % 4
+            k['comp'] = [S('/b_setn'), I(0), I(0), I(n), {'z': n}]
+    out = ctx.impl('c06_osc', {'cases': cases}, timeout=900)['out']
+    ch_items, ch_idx, pl_items, pl_idx = [], [], [], []
+
+    per_sig = {}
+
+    def fail(sig, what, k, extra, theorem):
+        per_sig[sig] = per_sig.get(sig, 0) + 1
+        if per_sig[sig] > 2:            # two replays per kind of failure are enough
+            return
+        small = dict(k)
+        if len(json.dumps(small)) > 4000:
+            small = {x: (y if x not in ('els',) else '%d elements, first %s' % (len(y), show(y[0]) if y else '-')) for x, y in k.items()}
+        c.failures.append(Failure('correspondence', what, signature=sig, theorem=theorem, found_input=True,
+                                  replay=dict({'site': k['kind'], 'case': small, 'command': './check C06 --replay <this file>'}, **extra)))
+
+    for k, o in zip(cases, out):
+        c.evaluations += 1
+        c.count('site:' + k.get('cls', k['kind']))
+        if 'crash' in o or 'error' in o:
+            fail('C06:site_error', 'use site %s raised %s on an acceptable input' % (k['kind'], o.get('crash') or o.get('error')), k, {'observed': o.get('crash') or o.get('error')}, None)
+            continue
+        calls = o['calls']
+        for call in calls:
+            if call.get('error'):
+                fail('C06:site_error', 'use site %s: %s raised %s' % (k['kind'], call['method'], call['error']), k, {'observed': call['error']}, None)
+        # what every use site must guarantee for each datagram it really sent
+        for call in calls:
+            for d in call.get('dgrams', []):
+                real = len(d) // 2
+                head = call['args'][0]
+                desc = '%s(%s%s)' % (call['method'], show(call['args'][:2])[:-1], ', ...' if len(call['args']) > 2 else '')
+                if real > MAX_UDP and not (k['kind'] == 'dsend' and isinstance(head, dict) and head.get('s') == '/d_load'):
+                    fail('C06:%s_oversized_datagram' % k['kind'], '%s sent a datagram of %d bytes > %d: %s' % (k['kind'], real, MAX_UDP, desc), k,
+                         {'sent_bytes': real, 'predicted_for_sent': call['pred'], 'expected': 'datagram <= %d' % MAX_UDP},
+                         'send_path_choice' if k['kind'] == 'dsend' else 'clump_within_limit')
+                if 0 <= call['pred'] < real:
+                    fail('C06:size_prediction_below_real', 'at the use site %s the prediction for the message actually sent is %d < %d real bytes: %s'
+                         % (k['kind'], call['pred'], real, desc), k, {'sent_bytes': real, 'predicted_for_sent': call['pred']}, 'size_upper_bound')
+                try:        # the encoder at the use site: the datagram is OSC 1.0 and carries the arguments of the call
+                    v = pyval(call['args'])
+                    exp = expected_of(v if call['method'] == 'send_msg' else v, iter(call['tags']))
+                    if not same(osc10.decode(bytes.fromhex(d)), exp):
+                        raise osc10.Osc10Error('decodes to different values')
+                except (osc10.Osc10Error, AssertionError, StopIteration, ValueError) as e:
+                    fail('C06:site_roundtrip', '%s: the datagram sent for %s %s' % (k['kind'], desc, e), k, {'sent_bytes': real}, 'osc10_agrees')
+        if k['kind'] == 'dsend':
+            comp = k['comp']
+            intended = [S('/d_recv'), o['def_bytes'], comp]
+            sent = [cl for cl in calls if cl.get('dgrams')]
+            chose = bool(sent) and sent[0]['args'][0] == S('/d_recv')
+            c.count('site:dsend:' + ('d_recv' if chose else ('d_load' if sent else 'nothing-sent')))
+            if chose:
+                c.nontriv(('site', k['L'], show(comp)))
+                if sent[0]['args'] != intended:
+                    fail('C06:d_recv_message_differs', 'SynthDef.%s sent %s instead of [\'/d_recv\', <%s bytes>, %s]'
+                         % (k['via'], show(sent[0]['args']), k['L'], show(comp)), k, {'sent': show(sent[0]['args'])}, 'send_path_choice')
+            elif sent and sent[0]['args'][0] == S('/d_load'):
+                if sent[0]['args'][2:] != [comp] or not o.get('file_written'):
+                    fail('C06:d_load_message_differs', 'the /d_load fallback does not carry the completion message or wrote no file: %s' % show(sent[0]['args']), k, {}, 'send_path_choice')
+            # the decision against the model, on the message that is to be sent
+            nbytes = o['def_bytes']['z'] if 'z' in o['def_bytes'] else len(o['def_bytes']['y']) // 2
+            # (the prediction looks at the length of the definition only: zeros keep the generated file small)
+            ch_items.append('(%s, %s)' % (coq_arg([S('/d_recv'), {'z': nbytes}, comp], iter([str(0)] * 1000)), 'true' if chose else 'false'))
+            ch_idx.append(k)
+        else:
+            sync = k['kind'] == 'sync'
+            got = []
+            lens = []
+            for cl in calls:
+                es = cl['args'][1:]
+                if sync:
+                    if not es or es[-1][0] != S('/sync'):
+                        fail('C06:sync_missing', 'sync sent a bundle that does not end with /sync: %s' % show(cl['args'])[:200], k, {}, 'clump_sync_within_udp_limit')
+                    es = es[:-1]
+                got.extend(es)
+                lens.append(len(es))
+            if got != k['els']:
+                fail('C06:%s_elements_lost' % k['kind'], '%s did not carry every element exactly once and in order: %d elements in, %d out'
+                     % (k['kind'], len(k['els']), len(got)), k, {'clump_lengths': lens}, 'clump_partition')
+            if len(lens) > 1:
+                c.nontriv(('site', k['cls'], len(k['els']), lens))
+            c.count('site:%s:%s' % (k['kind'], 'one-bundle' if len(lens) <= 1 else 'clumped'))
+            pl_items.append('(%s, ((0, [%s]) : Z * list Z))' % (coq_arg([None] + k['els'], iter([str(0)] * 100000)), '; '.join(map(str, lens))))
+            pl_idx.append((k, lens))
+    for name, items, idx, body, shard in (
+            ('choice', ch_items, ch_idx, 'Eval vm_compute in bad_idx (fun c => choice_ok (fst c) (snd c)) cases.', 30),
+            ('plan_clumped', [i for i, (k, _) in zip(pl_items, pl_idx) if k['kind'] == 'clumped'], [x for x in pl_idx if x[0]['kind'] == 'clumped'],
+             'Eval vm_compute in bad_idx (fun c => plan_ok false (fst c) (snd c)) cases.', 6),
+            ('plan_sync', [i for i, (k, _) in zip(pl_items, pl_idx) if k['kind'] == 'sync'], [x for x in pl_idx if x[0]['kind'] == 'sync'],
+             'Eval vm_compute in bad_idx (fun c => plan_ok true (fst c) (snd c)) cases.', 6)):
+        bad, errs = fw.check_shards(ctx, name, HEADER, items, body, shard=shard)
+        c.evaluations += len(items)
+        for e in errs:
+            c.failures.append(Failure('correspondence', 'coq evaluation of %s cases failed: %s' % (name, e[-800:])))
+        for i in bad[:4]:
+            if name == 'choice':
+                k = idx[i]
+                fail('C06:d_recv_choice_differs', "SynthDef.%s chose the %s path for ['/d_recv', <%s bytes>, %s], the model's send_path_choice on the message to be sent says the opposite"
+                     % (k['via'], 'other' if False else 'wrong', k['L'], show(k['comp'])), k, {}, 'send_path_choice')
+            else:
+                k, lens = idx[i]
+                fail('C06:%s_plan_differs' % k['kind'], '%s sent clumps of lengths %s, the model plans differently (%d elements)' % (k['kind'], lens[:8], len(k['els'])), k,
+                     {'clump_lengths': lens}, 'clump_within_limit')
+
+
+# ---------------------------------------------------------------------------
 # correspondence
 
 def correspond(ctx):
@@ -581,12 +786,16 @@ def correspond(ctx):
                 c.failures.append(Failure('correspondence', 'model parser and OscPacket disagree on datagram %r' % d[:200], replay={'check': name, 'dgram': d.hex()}))
             else:
                 c.failures.append(Failure('correspondence', '_strpad4(%d): model and implementation disagree' % ref, replay={'check': name, 'n': ref}))
+    check_sites(ctx, c)
     c.rule = ('argument trees (depth <= 4: None/bool/int32 boundaries/float/ASCII and 1-4-byte UTF-8 str/blobs of every length 1..17/'
               'message- and bundle-shaped lists/array markers/latencies) plus a malformed stream (ints out of int32, empty blob, '
               'unsupported types, NUL in str and address, unbalanced markers, bad lists, sub-bundle time) are built by the real '
               '_build_msg/_build_bundle (NRT and base-class interface) and by build_pkt: byte-exact comparison of the datagram or of the '
               'error class; the real OscPacket parser and parse_packet on the same (also damaged) bytes; _calc_*_dgram_size and '
-              '_clump_bundle against calc_pkt/clump_bundle. non-trivial = the build succeeded / the parse succeeded / more than one clump')
+              '_clump_bundle against calc_pkt/clump_bundle; the use sites SynthDef.send/add/_do_send, send_clumped_bundles, sync(elements) and '
+              'BundleNetAddr are driven with a logging transport: every datagram really sent is <= 65504, decodes (independent reader) to the '
+              'arguments of the call, prediction >= real for that very message, all elements carried once in order, and the /d_recv-vs-/d_load '
+              'choice and the clump plan equal the model\'s. non-trivial = the build succeeded / the parse succeeded / more than one clump')
     sample = [(k, o) for k, o in zip(allc, out) if 'build' in o][:400:70]
     c.samples = [{'input': show(k['v']), 'build': o['build'][:1] + o['build'][2:], 'predicted': o['pred']} for k, o in sample]
     ctx.c06 = {'cases': allc, 'out': out}
